@@ -1036,12 +1036,34 @@ pub fn init_slots<'a>(first: &str, sz: &'a Init, is: &'a [Init]) -> Vec<&'a Init
 /// `#[unsized_type] #[repr(u8)] enum`; variant 0 carries `#[default_init]`.
 #[macro_export]
 macro_rules! ux_enum {
+    // declaration order = shape order, the `#[default_init]` variant declared first
     (
         $name:ident, $owned:ident,
         first { $v0:ident = $d0:literal $( ( $p0:ty ) )? init $i0:ident },
         rest { $( $v:ident = $d:literal $( ( $p:ty ) )? init $i:ident ),* }
     ) => {
         $crate::ux_enum!(@def $name, $v0 = $d0 $(($p0))?, [$($v = $d $(($p))?),*]);
+        $crate::ux_enum!(@impl $name, $owned, first { $v0 = $d0 $(($p0))? init $i0 }, rest { $($v = $d $(($p))? init $i),* });
+    };
+    // explicit Rust declaration `decl { … }` (any order, `#[default_init]` anywhere, implicit or
+    // explicit discriminants); `first`/`rest` describe the SHAPE: the `#[default_init]` variant listed
+    // first, then the others, each with its actual discriminant value
+    (
+        $name:ident, $owned:ident,
+        decl { $($decl:tt)* },
+        first { $v0:ident = $d0:literal $( ( $p0:ty ) )? init $i0:ident },
+        rest { $( $v:ident = $d:literal $( ( $p:ty ) )? init $i:ident ),* }
+    ) => {
+        #[unsized_type(skip_idl)]
+        #[repr(u8)]
+        pub enum $name { $($decl)* }
+        $crate::ux_enum!(@impl $name, $owned, first { $v0 = $d0 $(($p0))? init $i0 }, rest { $($v = $d $(($p))? init $i),* });
+    };
+    (
+        @impl $name:ident, $owned:ident,
+        first { $v0:ident = $d0:literal $( ( $p0:ty ) )? init $i0:ident },
+        rest { $( $v:ident = $d:literal $( ( $p:ty ) )? init $i:ident ),* }
+    ) => {
         impl $crate::ux::Ux for $name {
             fn shape() -> $crate::sx::Shape {
                 $crate::sx::Shape::Enum(vec![
